@@ -104,6 +104,16 @@ def scenarios(run):
                 for sid in (1, 3, 5, 7):
                     ops += [RX(('Headers', sid, False, None, ('Decoded', t2.REQ))), ('OpenInbound',)]
             out.append((t2.default_cfg(client), ops))
+    # the peer lowers its limit to (or strictly below) the number of streams already open: every further open is refused
+    for first in (None, 5, 3):
+        for lim in (0, 1, 2, 3):
+            ops = [('Initiate',), RX(('Settings', False, [(3, first)] if first is not None else []))]
+            for sid in (1, 3, 5):
+                ops += [('SendHeaders', sid, t2.REQ, 0, False, None, None, None)]
+            ops += [('OpenOutbound',), RX(('Settings', False, [(3, lim)])),
+                    ('SendHeaders', 7, t2.REQ, 0, False, None, None, None), ('OpenOutbound',),
+                    ('SendHeaders', 9, t2.REQ, 0, True, None, None, None), ('OpenOutbound',)]
+            out.append((t2.default_cfg(True), ops))
     for client in (True, False):
         out.append((t2.default_cfg(client), list(t2.zoo(client)) + [('OpenOutbound',), ('OpenInbound',), ('OpenOutbound',)]))
     return out
